@@ -18,7 +18,9 @@ META = dict(
               "numbers symbolic), iterable given as list / generator / generator raising at frame k; load_many of the "
               "written file compared with per-frame dump_one + load_one; truncation of the file at every line boundary "
               "(nondeterministic end of file); one corrupted numeric field in any frame; load_many of gro / extxyz / fchk "
-              "trajectories: see C03 harness jobs (independent layout writers)",
+              "trajectories: see C03 harness jobs (independent layout writers); trajectories in the published layouts of gro, "
+              "xyz, sdf, mol2, pdb with differing atom counts and one frame whose title is empty or blank: load_many == "
+              "per-frame load_one",
         thorough="up to 5 frames"),
     outside=["more than 5 frames", "byte-level truncation inside a line", "multi-field corruption"],
     assumptions=["in-memory files; tokens for numbers; weaker reading of truncation: dropping an incomplete last frame is "
@@ -261,6 +263,61 @@ def h_extxyz_mixed(ctx, order=(0, 1, 0)):
             ctx.oblige("frame-equals-single-load", f, cls=f"{cls},frame={i}", detail=where)
 
 
+def _layout_frame(ctx, fmt, k, title):
+    """One frame in the published layout (specs.layouts, no iodata code): text of a single-frame file."""
+    from specs import layouts as L
+    natom = [2, 1, 3, 2, 1][k % 5]
+    xyz = [[ctx.real(f"t{k}x{i}_{c}", lo=-90, hi=900, default=1.5 * c - i + 0.25 * k) for c in range(3)] for i in range(natom)]
+    zs = [[8, 1, 6][(i + k) % 3] for i in range(natom)]
+    if fmt == "gro":
+        atoms = [(1 + i, "SOL", ["OW", "HW1", "HW2"][i % 3], 1 + i, *xyz[i], None) for i in range(natom)]
+        box = [[3.0 + k if r == c else 0.0 for c in range(3)] for r in range(3)]
+        return L.write_gro(dict(frames=[dict(title=title, time=None, atoms=atoms, box=box, triclinic=False)]))
+    if fmt == "xyz":
+        return L.write_xyz(dict(frames=[dict(title=title, atoms=[(L.NUM2SYM[z], *xyz[i]) for i, z in enumerate(zs)])]))
+    if fmt == "sdf":
+        bonds = [(1, 2, 1)] if natom >= 2 else []
+        return L.write_sdf(dict(title=title, atoms=[(z, *xyz[i]) for i, z in enumerate(zs)], bonds=bonds))
+    if fmt == "mol2":
+        atoms = [(f"{L.NUM2SYM[z]}{i + 1}", *xyz[i], {8: "O.3", 1: "H", 6: "C.3"}[z], 0.25 * i - 0.1) for i, z in enumerate(zs)]
+        return L.write_mol2(dict(title=title, atoms=atoms, bonds=[(1, 2, "1")] if natom >= 2 else []))
+    if fmt == "pdb":
+        atoms = [(i + 1, f"{L.NUM2SYM[z]}{i + 1}", "MOL", "A", 1, *xyz[i], 1.0, 0.0, z) for i, z in enumerate(zs)]
+        return L.write_pdb(dict(title=title, atoms=atoms))
+    raise ValueError(fmt)
+
+
+def h_text_trajectory(ctx, fmt="gro", nframes=3):
+    """Trajectory files in the published layout, frames with and without titles: load_many == per-frame load_one."""
+    import iodata.api as api
+    from iodata.utils import LoadError
+    mods = rt._fmt_modules({"gro": "gromacs"}.get(fmt, fmt))
+    ext = {"gro": "m.gro", "xyz": "m.xyz", "sdf": "m.sdf", "mol2": "m.mol2", "pdb": "m.pdb"}[fmt]
+    with stubbed(*mods):
+        blank = ctx.choice(list(range(nframes + 1)), label="frame-without-title")
+        fill = ctx.choice(["", "   "], label="blank-kind") if blank < nframes else ""
+        texts = [_layout_frame(ctx, fmt, k, fill if k == blank else f"frame number {k}") for k in range(nframes)]
+        singles = []
+        for k, t in enumerate(texts):
+            p1 = ctx.tmp_path(f"one{k}." + ext)
+            ctx.write_text(p1, t)
+            with warnings.catch_warnings(record=True):
+                warnings.simplefilter("always")
+                try:
+                    singles.append(api.load_one(p1))
+                except LoadError:
+                    return              # a frame that is not loadable on its own is outside this obligation (C03)
+        path = ctx.tmp_path(ext)
+        ctx.write_text(path, "".join(texts))
+        got, err, _ = _load_all(api, path)
+        cls = f"{fmt},blank-title-in-frame={'none' if blank == nframes else blank}"
+        ctx.oblige("trajectory-loads", err is None, cls=cls, detail=str(err))
+        ctx.oblige("one-object-per-frame-in-the-file", len(got) == nframes, cls=cls, detail=f"{len(got)} of {nframes}")
+        for k in range(min(len(got), nframes)):
+            f, where = _same_obj(ctx, got[k], singles[k])
+            ctx.oblige("frame-equals-single-frame-load", f, cls=f"{fmt},frame={k}", detail=where)
+
+
 def _corrupt_concrete(fmt, text, k):
     lines = text.splitlines(keepends=True)
     starts = []
@@ -309,6 +366,9 @@ def jobs(tier):
                        budget_s=300, max_validate=0, validate=False, max_paths=600))
         out.append(job("C13", f"load-many-corrupt[{fmt}]", M, "h_load_many_corrupt", dict(fmt=fmt, nframes=3),
                        budget_s=300, max_validate=3, max_paths=400))
+    for fmt in ("gro", "xyz", "sdf", "mol2", "pdb"):
+        out.append(job("C13", f"text-trajectory[{fmt}]", M, "h_text_trajectory", dict(fmt=fmt, nframes=nmax), budget_s=300,
+                       max_validate=4, max_paths=200))
     for order in ((0, 1), (1, 0), (0, 1, 0)):
         out.append(job("C13", f"extxyz-mixed-columns[{order}]", M, "h_extxyz_mixed", dict(order=list(order)), max_validate=2))
     out.append(job("C13", "dump-load-many[twin]", M, "h_dump_load_many", dict(fmt="xyz", nframes=2, twin=True),
